@@ -56,7 +56,9 @@ class Ctx:
     def regen(self, files):
         cmd = [PY, os.path.join(VERIF, "translate", "gen_all.py")] + list(files)
         env = dict(os.environ, PYTHONPATH=REPO, PYTHONHASHSEED="0", DELB_REPO=REPO)
-        p = subprocess.run(cmd, capture_output=True, text=True, env=env, timeout=300)
+        with coq_lock():
+            p = subprocess.run(cmd, capture_output=True, text=True, env=env, timeout=300)
+            subprocess.run([os.path.join(COQ, "mk_coqproject.sh")], check=False, capture_output=True)
         self.checker_cmds.append(" ".join(cmd))
         try:
             st = json.loads(p.stdout.strip().splitlines()[-1])
@@ -71,7 +73,6 @@ class Ctx:
             else:
                 ok = False
                 self.broken.append(("translator", name, s.get("error", "")))
-        subprocess.run([os.path.join(COQ, "mk_coqproject.sh")], check=False, capture_output=True)
         return ok
 
     # ---------------------------------------------------------------- Coq build
@@ -85,7 +86,8 @@ class Ctx:
         cmd = ["timeout", str(timeout), "make", "-C", COQ, "-j", str(min(16, os.cpu_count() or 4)),
                os.path.join("theories", target)]
         self.checker_cmds.append(" ".join(cmd))
-        p = subprocess.run(cmd, capture_output=True, text=True)
+        with coq_lock():
+            p = subprocess.run(cmd, capture_output=True, text=True)
         out = p.stdout + p.stderr
         for n in names:
             self.obligations.append("coq:" + n)
@@ -200,6 +202,20 @@ class Ctx:
         with open(os.path.join(VERIF, "evidence", self.prop + ".json"), "w") as f:
             json.dump(ev, f, indent=1, default=str)
         return status
+
+
+class coq_lock:
+    """serialises translator runs and makes in /verif/coq (several checks may run at once)"""
+    def __enter__(self):
+        import fcntl
+        os.makedirs(os.path.join(VERIF, "build"), exist_ok=True)
+        self.f = open(os.path.join(VERIF, "build", ".coqlock"), "w")
+        fcntl.flock(self.f, fcntl.LOCK_EX)
+
+    def __exit__(self, *a):
+        import fcntl
+        fcntl.flock(self.f, fcntl.LOCK_UN)
+        self.f.close()
 
 
 def locate_lemma(path, line):
